@@ -4,12 +4,12 @@
 //   bit F a b            -> and= or= not=
 //   txt F <hex of text> [ref]   -> ok <addr> | throw invalid_address      (constructor from std::string)
 //   fmt F a [ref]        -> s=<hex of to_string()> back=<addr parsed back from that text | throw ..>
-//   pfx F a p            -> mask= first= last= it= n= ov= f= l= h=        (a / p)
-//   msk F a m            -> first= last= it= n= ov= f= l= h=              (AddressRange::from_mask(a, m))
-//   rng F first last oh  -> it= n= ov= f= l= h=  | throw invalid_range    (AddressRange(first, last, oh))
+//   pfx F a p [cap]      -> mask= first= last= it= n= ov= f= l= h=        (a / p)
+//   msk F a m [cap]      -> first= last= it= n= ov= f= l= h=              (AddressRange::from_mask(a, m))
+//   rng F first last oh [cap] -> it= n= ov= f= l= h=  | throw invalid_range    (AddressRange(first, last, oh))
 //   has F first last x   -> c=                                            (contains)
 //   inc F a | dec F a    -> a= r=                                         (Internals::increment / decrement)
-// Iteration (begin()..end()) is only run when is_iterable() is true, is capped at CAP steps (ov=1 when the cap was
+// Iteration (begin()..end()) is only run when is_iterable() is true, is capped at `cap` (default CAP) steps (ov=1 when the cap was
 // hit before reaching end()), and is summarised by count, first, last and FNV-1a of all visited address bytes.
 #include "common.h"
 #include <tins/ip_address.h>
@@ -23,6 +23,9 @@ using namespace Tins;
 using namespace vh;
 
 static const size_t CAP = 66000;
+static size_t cap_arg(const std::vector<std::string>& w, size_t i) {
+    return w.size() > i ? size_t(std::strtoull(w[i].c_str(), 0, 10)) : CAP;
+}
 
 struct bad_op {};
 
@@ -59,7 +62,7 @@ static std::string text_of(const std::string& h) {
     return std::string(b.begin(), b.end());
 }
 
-template <typename A> std::string iterate(const AddressRange<A>& r) {
+template <typename A> std::string iterate(const AddressRange<A>& r, size_t cap) {
     std::ostringstream o;
     bool itb = r.is_iterable();
     o << "it=" << itb;
@@ -70,7 +73,7 @@ template <typename A> std::string iterate(const AddressRange<A>& r) {
     std::string f = "-", l = "-";
     typename AddressRange<A>::const_iterator it = r.begin(), e = r.end();
     for (; it != e; ++it) {
-        if (n == CAP) { ov = true; break; }
+        if (n == cap) { ov = true; break; }
         bytes b = Fam<A>::get(*it);
         for (size_t i = 0; i < b.size(); ++i) { h ^= b[i]; h *= 1099511628211ULL; }
         if (n == 0) f = to_hex(b);
@@ -122,17 +125,17 @@ template <typename A> std::string run(const std::vector<std::string>& w) {
         int p = std::atoi(w[3].c_str());
         if (p < 0) throw bad_op();
         AddressRange<A> r = a / p;
-        return "mask=" + Fam<A>::mask(p) + " " + ends(r) + " " + iterate(r);
+        return "mask=" + Fam<A>::mask(p) + " " + ends(r) + " " + iterate(r, cap_arg(w, 4));
     }
     if (op == "msk" && w.size() >= 4) {
         A a = addr_of<A>(w[2]), m = addr_of<A>(w[3]);
         AddressRange<A> r = AddressRange<A>::from_mask(a, m);
-        return ends(r) + " " + iterate(r);
+        return ends(r) + " " + iterate(r, cap_arg(w, 4));
     }
     if (op == "rng" && w.size() >= 5) {
         A a = addr_of<A>(w[2]), b = addr_of<A>(w[3]);
         AddressRange<A> r(a, b, w[4] == "1");
-        return iterate(r);
+        return iterate(r, cap_arg(w, 5));
     }
     if (op == "has" && w.size() >= 5) {
         A a = addr_of<A>(w[2]), b = addr_of<A>(w[3]), x = addr_of<A>(w[4]);
